@@ -308,7 +308,13 @@ Definition child_decision (c : ccfg) (kc : child_cfg) (parent : json)
   end.
 
 (* server-side apply of one desired child (filled in by Model/SSA section below) *)
-Definition ssa_child (c : ccfg) (kc : child_cfg) (observed : option json) (d : json) : prog bool :=
+(* the applied object always carries our controller reference (as a created one does) *)
+Definition ssa_body (parent d : json) : json :=
+  if controlled_by d (get_uid parent) then d
+  else set_owner_refs d (get_owner_refs d ++
+         [controller_ref (get_api_version parent) (get_kind parent) (get_name parent) (get_uid parent)]).
+
+Definition ssa_child (c : ccfg) (kc : child_cfg) (parent : json) (observed : option json) (d : json) : prog bool :=
   let ns := eff_ns (ch_namespaced kc) (get_ns d) in
   r1 <~ match observed with
         | Some old =>
@@ -324,7 +330,7 @@ Definition ssa_child (c : ccfg) (kc : child_cfg) (observed : option json) (d : j
   match r1 with
   | RErr _ => Ret true
   | ROk _ =>
-      r2 <~ api (mkRq VPatchApply (ch_res kc) ns (get_name d) d "" "") ;;
+      r2 <~ api (mkRq VPatchApply (ch_res kc) ns (get_name d) (ssa_body parent d) "" "") ;;
       match r2 with ROk _ => Ret false | RErr _ => Ret true end
   end.
 
@@ -333,7 +339,7 @@ Definition update_children (c : ccfg) (kc : child_cfg) (parent : json)
   foldM (fun (failed : bool) (p : string * json) =>
            let d := snd p in
            let ns := eff_ns (ch_namespaced kc) (get_ns d) in
-           if ssa c then f <~ ssa_child c kc (olookup (fst p) observed) d ;; Ret (failed || f) else
+           if ssa c then f <~ ssa_child c kc parent (olookup (fst p) observed) d ;; Ret (failed || f) else
            match child_decision c kc parent (olookup (fst p) observed) d with
            | ActNone => Ret failed
            | ActError | ActPanic => Ret true
